@@ -174,6 +174,8 @@ def event_s(draw, cid, conf, kinds, rkinds, pwweights):
     if k in ("X", "Xstale", "Xforeign", "x"):
         if k == "Xforeign" or not svcs:
             svc = draw(st.sampled_from(["nobody.ex", "ALPHA.EX", "alpha.ex."]))
+        elif draw(st.integers(0, 11)) == 0:
+            svc = draw(st.sampled_from(SVC_POOL))      # possibly a service that only a later reload configures
         else:
             svc = draw(st.sampled_from(svcs))
         sm = "cur"
@@ -288,6 +290,22 @@ def history_s(draw, pid, tier, conf=None, max_clients=None, distinct_ids=False, 
             pos[i] += 1
     for i in range(nscripts):
         events.extend(scripts[i][pos[i]:])
+    if pid in ("C01", "C02", "C03", "C05", "C06", "C10") and events and len(conf["services"]) <= 5 and draw(st.integers(0, 8)) == 0:
+        # the operator edits the service table and reloads while clients are being served: a removed service that
+        # still owes answers keeps serving the clients that wait for it, new clients follow the new table
+        svcs = [list(x) for x in conf["services"]]
+        for _ in range(draw(st.integers(1, 2))):
+            e = draw(st.sampled_from(["drop", "drop", "add", "retype", "readd"]))
+            if e == "drop" and svcs:
+                svcs = [x for i, x in enumerate(svcs) if i != draw(st.integers(0, len(svcs) - 1))]
+            elif e in ("add", "readd"):
+                free = [x for x in SVC_POOL if x not in [y[0] for y in svcs]]
+                if free:
+                    svcs = svcs + [[draw(st.sampled_from(free)), draw(st.sampled_from(proto.PROTOCOLS))]]
+            elif e == "retype" and svcs:
+                i = draw(st.integers(0, len(svcs) - 1))
+                svcs[i] = [svcs[i][0], draw(st.sampled_from(proto.PROTOCOLS))]
+            events.insert(draw(st.integers(1, len(events))), ["reconf", {"services": [list(x) for x in svcs]}])
     if pid in ("C01", "C02", "C03", "C10") and events and draw(st.integers(0, 11)) == 0:
         # the operator edits iauth.timeout and reloads while requests are pending: requests keep the timer (or the
         # absence of one) they were announced with, new ones follow the new setting
@@ -412,7 +430,7 @@ def run_lockstep(case, workdir, stop_on_violation=False, spec_hook=None):
                     break
                 spec.conf = proto.Conf(curconf)
                 spec.step, spec.in_kind, spec.in_client, spec.reply_ctx = i, "server", None, None
-                spec.classes.add("reload_changes_timeout")
+                spec.classes.add("reload_changes_timeout" if "timeout" in ev[1] else "reload_changes_services")
                 out = [b.decode("latin-1") for b in out]
                 tr.steps.append(("(reload %r)" % ev[1], out, in_use))
                 spec.feed_output(i, out)
